@@ -866,7 +866,105 @@ func (g *genA) versions() [][]*schemaDef {
 	case x < 15:
 		g.kindCollisionVersions(set)
 	}
+	// An object that one service federates (FetchObjectFromKeys) and another
+	// service exposes as a plain object (drawn last, see above). thunder's rule is
+	// that such a set is refused; whether it is refused must not depend on names.
+	if g.nsvc >= 2 && r.Intn(100) < 9 {
+		g.mixedFederation(set)
+	}
 	return set
+}
+
+// stripFederation turns object o of one schema into a plain object: no
+// _federation field, no Federation.<svc>_<o>(keys) field; the object stays
+// reachable through a root field.
+func stripFederation(d *schemaDef, o string) bool {
+	t := d.Types[o]
+	if t == nil || t.field("_federation") == nil {
+		return false
+	}
+	var fs []fieldDef
+	for _, f := range t.Fields {
+		if f.Name != "_federation" {
+			fs = append(fs, f)
+		}
+	}
+	t.Fields = fs
+	if fed := d.Types["Federation"]; fed != nil {
+		var ffs []fieldDef
+		for _, f := range fed.Fields {
+			if f.Name != svcPlaceholder+"_"+o {
+				ffs = append(ffs, f)
+			}
+		}
+		fed.Fields = ffs
+		if len(ffs) == 0 {
+			q := d.Types["Query"]
+			var qfs []fieldDef
+			for _, f := range q.Fields {
+				if f.Name != "_federation" {
+					qfs = append(qfs, f)
+				}
+			}
+			q.Fields = qfs
+			delete(d.Types, "Federation")
+		}
+	}
+	q := d.Types["Query"]
+	if q.field("p0") == nil {
+		q.Fields = append(q.Fields, fieldDef{Name: "p0", Type: listOf(named("OBJECT", o))})
+	}
+	d.gc()
+	return true
+}
+
+func (g *genA) mixedFederation(set [][]*schemaDef) {
+	r := g.r
+	var cands []string
+	for _, o := range g.objs {
+		n := 0
+		for _, p := range g.present[o] {
+			if p {
+				n++
+			}
+		}
+		if g.federated[o] && n >= 2 {
+			cands = append(cands, o)
+		}
+	}
+	if len(cands) == 0 {
+		return
+	}
+	o := cands[r.Intn(len(cands))]
+	var svcs []int
+	for s, p := range g.present[o] {
+		if p {
+			svcs = append(svcs, s)
+		}
+	}
+	s := svcs[r.Intn(len(svcs))]
+	only := -1 // one version only: the service's intersection loses the federation of o
+	if len(set[s]) > 1 && r.Intn(2) == 0 {
+		only = r.Intn(len(set[s]))
+	}
+	done := false
+	for v, d := range set[s] {
+		if only >= 0 && v != only {
+			continue
+		}
+		c := d.clone()
+		if stripFederation(c, o) && len(c.closureProblems()) == 0 {
+			set[s][v] = c
+			done = true
+		}
+	}
+	if done {
+		if only >= 0 {
+			g.feat["gen:mixed_federation:one_version"]++
+		} else {
+			g.feat["gen:mixed_federation:service"]++
+		}
+	}
 }
 
 // universeNames lists the non-scalar type names of the universe with their kinds.
